@@ -1143,6 +1143,26 @@ class Trace:
     def on_save(self):
         wn = self.wn
         seg = "S=%s %s" % (_c(int(l.status) for _, l in wn.links()), _flags_str(wn))
+        # a non-Closed link whose two ends have a path of non-Closed links to a source, still flagged isolated: store_results has
+        # forced its reported flow to 0 whatever the hydraulics say ("reconnecting restores normal results" is violated)
+        adj = {}
+        for _, l in wn.links():
+            if int(l.status) != 0:
+                adj.setdefault(l.start_node_name, []).append(l.end_node_name)
+                adj.setdefault(l.end_node_name, []).append(l.start_node_name)
+        seen = set(nm for nm, _ in wn.tanks()) | set(nm for nm, _ in wn.reservoirs())
+        stack = list(seen)
+        while stack:
+            u = stack.pop()
+            for v in adj.get(u, ()):
+                if v not in seen:
+                    seen.add(v)
+                    stack.append(v)
+        bad = [nm for nm, l in wn.links() if l._is_isolated and int(l.status) != 0 and l.start_node_name in seen and l.end_node_name in seen]
+        if bad and not self.problems:
+            self.problems.append(("connected-link-zeroed", "t=%s link(s) %s are not Closed and join nodes connected to a source but are still "
+                                  "treated as isolated: reported flow forced to 0 (%s)" % (wn.sim_time, bad, [wn.get_link(x).flow for x in bad]),
+                                  {"t": wn.sim_time, "links": bad}))
         self._tok("r", seg)
         if self.cur is not None:
             self.cur["rows"].append(seg)
@@ -1815,8 +1835,15 @@ def _run_oracle1(wntr, sc, wn):
             if s_j == 0 or a not in seen or b not in seen or float(flow[lp % j]) != 0.0:
                 continue
             ha, hb = float(res.node["head"].loc[t, "N%d" % a]), float(res.node["head"].loc[t, "N%d" % b])
-            if k in ("hpump", "ppump") or (abs(ha - hb) > 1e-6 and (k in ("pipe", "tcv") or s_j == 1)
-                                           and not (k == "cv" and ha < hb)):
+            # a flow of exactly 0 is only called "zeroed" when it contradicts the link's own law at the reported heads: a pipe /
+            # open valve with a head difference, an open head pump whose gain is not its shut-off head (a pump feeding a dead end
+            # with no demand sits exactly at shut-off with flow 0: the true solution, Newton may even return 0.0)
+            if k == "hpump":
+                A = float(wn.get_link(lp % j).get_head_curve_coefficients()[0])
+                odd = abs((hb - ha) - A) > 1e-3 * max(1.0, A)
+            else:
+                odd = (k != "ppump" and abs(ha - hb) > 1e-3 and (k in ("pipe", "tcv") or s_j == 1) and not (k == "cv" and ha < hb))
+            if odd:
                 stats["link_checked_bad"] = 1
                 return ("connected-link-zeroed", "t=%d link L%d (%s, reported status %d) joins two junctions connected to a source "
                         "(heads %r, %r) but reports flow exactly 0" % (t, j, k, s_j, ha, hb),
